@@ -125,7 +125,71 @@ func addC16CliCase(run *Run, v *Val, top bool, useO bool, yamlFirst bool) {
 	run.Add(c)
 }
 
+// addC16CliPatchCase: `jd -yaml a b` then `jd -yaml -p <diff> a` with one binary: the YAML printed by the second run
+// must read back to a document Equal to b that renders like b (diffs and patches of YAML documents preserve content)
+func addC16CliPatchCase(run *Run, a, b *Val, top bool) {
+	aw, bw := a.Wire(), b.Wire()
+	c := Case{Recipe: Recipe{"c16clip", []string{aw, bw, boolWire(top)}},
+		Desc:       map[string]string{"a": a.Human(), "b": b.Human(), "binary": map[bool]string{true: "jd (top level)", false: "v2/jd"}[top]},
+		Nontrivial: aw != bw, Sig: "clip|" + aw + "|" + bw + boolWire(top)}
+	bins := c16CliBins()
+	verdict := "ok"
+	if bins.err != nil {
+		verdict = "fail cannot build the binaries: " + bins.err.Error()
+	} else {
+		bin := bins.v2jd
+		if top {
+			bin = bins.top
+		}
+		dir, _ := os.MkdirTemp("", "verif-c16p-")
+		defer os.RemoveAll(dir)
+		res, _ := safely(func() string {
+			an, bn := mustNode(aw), mustNode(bw)
+			fa, fb, fd := filepath.Join(dir, "a.yaml"), filepath.Join(dir, "b.yaml"), filepath.Join(dir, "d")
+			os.WriteFile(fa, []byte(an.Yaml()), 0o644)
+			os.WriteFile(fb, []byte(bn.Yaml()), 0o644)
+			dtext, code, se := c16RunCli(bin, "", "-yaml", fa, fb)
+			if code != 0 && code != 1 {
+				verdict = fmt.Sprintf("fail jd -yaml a b exits %d: %s", code, short(se))
+				return "done"
+			}
+			os.WriteFile(fd, []byte(dtext), 0o644)
+			out, code, se := c16RunCli(bin, "", "-yaml", "-p", fd, fa)
+			if code != 0 {
+				verdict = fmt.Sprintf("fail jd -yaml -p exits %d: %s", code, short(se))
+				return "done"
+			}
+			back, err := jd.ReadYamlString(out)
+			if err != nil {
+				verdict = "fail the patched YAML does not parse: " + short(out)
+				return "done"
+			}
+			if !back.Equals(bn) || !bn.Equals(back) || back.Json() != bn.Json() {
+				verdict = "fail jd -yaml -p printed " + short(out) + " which reads as " + short(back.Json()) + ", not " + short(bn.Json())
+			}
+			return "done"
+		})
+		if res == "panic" {
+			verdict = "ok panic-elsewhere"
+		}
+	}
+	if strings.HasPrefix(verdict, "ok") {
+		verdict = "ok"
+	}
+	c.Probes = append(c.Probes, Probe{Kind: "direct", Rel: "C16 jd -yaml a b then jd -yaml -p reproduces b (both binaries, YAML in and out)", Want: verdict})
+	run.Count("cli-yaml-diff-patch")
+	run.Add(c)
+}
+
 func init() {
+	recipes["c16clip"] = func(run *Run, a []string) {
+		owned := c16Bins == nil
+		addC16CliPatchCase(run, mustVal(a[0]), mustVal(a[1]), a[2] == "T")
+		if owned && c16Bins != nil {
+			c16Bins.cleanup()
+			c16Bins = nil
+		}
+	}
 	recipes["c16cli"] = func(run *Run, a []string) {
 		owned := c16Bins == nil
 		addC16CliCase(run, mustVal(a[0]), a[1] == "T", a[2] == "T", a[3] == "T")
